@@ -30,6 +30,8 @@ RULE = ('tables.rand_spec tables (1-5 x 1-5, every layout recipe: dense/CSR/CSC/
         'dyadic, signed, >6-decimal, sub-1e-6, subnormal and huge doubles; IDs, metadata keys/values, table id, type, '
         'generated_by drawn from an alphabet with quote, backslash, every control character, DEL, Latin-1, BMP '
         'edges, non-BMP; metadata kinds none/text/num/tax/nested/null/numpy scalars/tuples; naive creation dates; '
+        'every document written plain and gzip-compressed under names that do not follow the compression (x.biom, '
+        'x.json, x.json.gz, x.gz, x.GZ, x, x.txt); '
         'plus a contract test of repr(float)/float() on 20000 doubles (random bit patterns, subnormals, powers of '
         'two +-1ulp); non-trivial = a table with at least one non-zero cell; distinct by case hash')
 TRUSTED = ['hand-written models coq/Model/Json.v and coq/Model/JsonText.v tied to biom/table.py (to_json, from_json, '
@@ -198,6 +200,15 @@ def attempt(f):
         return ['err', tables.err_code(e)]
 
 
+FILE_NAMES = ['x.biom', 'x.json', 'x.json.gz', 'x.gz', 'x.GZ', 'x', 'x.txt']
+ALL_FORMS = [[comp, n] for comp in ('plain', 'gzip') for n in FILE_NAMES]
+
+
+def file_forms(c):
+    """(compression, file name) pairs under which the text is written and loaded: all 14 unless the case picks some"""
+    return [tuple(x) for x in c.get('files', ALL_FORMS)]
+
+
 LAYOUTS = {}
 STATS = {}
 
@@ -325,20 +336,28 @@ def run_impl(c):
         p = os.path.join(d, 't.biom')
         with open(p, 'w') as fh:
             fh.write(txt)
-        pz = os.path.join(d, 't.biom.gz')
-        with gzip.open(pz, 'wt') as fh:
-            fh.write(txt)
         cuts = sorted(set(min(len(txt), k) for k in c['split']))
         lines = [txt[a:b] for a, b in zip([0] + cuts, cuts + [len(txt)])]
 
         def with_handle():
             with open(p) as fh:
                 return parse_table(fh)
-        for name, f in (('load_table(path)', lambda: load_table(p)), ('load_table(gzip)', lambda: load_table(pz)),
-                        ('parse_table(handle)', with_handle), ('parse_table(lines)', lambda: parse_table(lines)),
+        for name, f in (('parse_table(handle)', with_handle), ('parse_table(lines)', lambda: parse_table(lines)),
                         ('parse_table(str)', lambda: parse_table(txt))):
             r = attempt(f)
             paths.append([name, 'same' if r == obs['read'] else r])
+        # load_table sniffs the content: the file name varies independently of the compression
+        for comp, fname in file_forms(c):
+            q = os.path.join(d, fname)
+            if comp == 'gzip':
+                with gzip.open(q, 'wt') as fh:
+                    fh.write(txt)
+            else:
+                with open(q, 'w') as fh:
+                    fh.write(txt)
+            r = attempt(lambda: load_table(q))
+            os.unlink(q)
+            paths.append(['load_table(%s, %s)' % (comp, fname), 'same' if r == obs['read'] else r])
     finally:
         for f in os.listdir(d):
             os.unlink(os.path.join(d, f))
@@ -471,8 +490,8 @@ def decode(tree, c):
     obs['ddoc_same'] = True
     obs['read'] = dec_result(read, fc)
     obs['dread'] = dec_result(dread, fc)
-    obs['paths'] = [[n, 'same'] for n in ('load_table(path)', 'load_table(gzip)', 'parse_table(handle)',
-                                          'parse_table(lines)', 'parse_table(str)')]
+    obs['paths'] = [[n, 'same'] for n in ('parse_table(handle)', 'parse_table(lines)', 'parse_table(str)')] + \
+        [['load_table(%s, %s)' % cf, 'same'] for cf in file_forms(c)]
     return obs
 
 
@@ -559,6 +578,7 @@ def gen_case(rng):
     return {'spec': spec, 'vkind': kind, 'idkind': idk, 'mdkind': mk,
             'table_id': rng.choice([None, 'tid', rand_string(rng, 'id')]),
             'generated_by': rng.choice(['gen', 'biom 2.1', rand_string(rng, 'g'), rand_string(rng)]),
+            'files': ALL_FORMS if rng.random() < 0.15 else rng.sample(ALL_FORMS, 4),
             'stored_zero': rng.random() < 0.3, 'date': date, 'raws': raws, 'split': [rng.randint(0, 400) for _ in range(rng.randint(0, 3))]}
 
 
@@ -598,7 +618,7 @@ def classify(c):
     if c.get('kind') == 'numbers':
         return ['number-contract'] + ['%s=%d' % kv for kv in sorted(STATS.items())]
     s = c['spec']
-    tags = ['values:' + c.get('vkind', '?'), 'ids:' + c.get('idkind', '?'), 'md:' + c.get('mdkind', '?'),
+    tags = ['file:%s:%s' % cf for cf in file_forms(c)] + ['values:' + c.get('vkind', '?'), 'ids:' + c.get('idkind', '?'), 'md:' + c.get('mdkind', '?'),
             'dims:%dx%d' % (len(s['oids']), len(s['sids'])), 'layout0:' + str((s.get('layout') or ['dense'])[0])]
     lay = LAYOUTS.get(json.dumps(c, sort_keys=True))
     if lay:
